@@ -335,6 +335,29 @@ def rule_p1(ctx, F):
         ctx.before("P1", "ts_subtree_edit:write-back-after-make_mut", fn, wb, mk, "the write-back stores the make_mut result")
 
 
+EXPECTED_WITNESSES = ["W1EditWhileNodeBorrowed", "W2EditWhileCursorBorrowed", "W3EditNeedsMut", "W4ParseNeedsMut", "W5NodeOutlivesTree",
+                      "W6DropWhileNodeBorrowed", "W7OneStreamPerCursor"]
+
+
+def rule_t1(ctx):
+    """Compile-fail witnesses (E4): misuse of the Rust API that would break tree isolation does not type-check."""
+    ctx.config = "rustc"
+    r = ctx.extract.witnesses()
+    res = r.get("results", {})
+    if not res:
+        ctx.bad("T1", "witness-harness", "the witness crate did not build (cargo +nightly test --doc): %s" % r.get("tail", "")[-400:])
+        return
+    for w in EXPECTED_WITNESSES:
+        cf, tw = res.get(w + ":compile_fail"), res.get(w + ":twin")
+        if cf == "ok" and tw == "ok":
+            ctx.ok("T1", w, "rejected by rustc with the expected error code; the twin without the offending line compiles", sample={"witness": w})
+        elif tw != "ok":
+            ctx.bad("T1", w + ":twin", "the compiling twin of witness %s no longer compiles (API changed?) — the witness proves nothing" % w)
+        else:
+            ctx.bad("T1", w, "witness %s now COMPILES (or fails with a different error): the type system no longer forbids this misuse" % w)
+    ctx.floor("witness pairs", sum(1 for k in res if k.endswith(":compile_fail")), 7)
+
+
 def run(ctx):
     for cfg in configs(ctx):
         ctx.config = cfg
@@ -346,6 +369,7 @@ def run(ctx):
         rule_writers(ctx, F, w)
         rule_w3(ctx, F, w)
         rule_p1(ctx, F)
+    rule_t1(ctx)
     return ctx.finish(
         "Who-may-write and gate rules over the Clang-resolved C runtime: ref_count is only touched by atomics (or set to 1 on fresh nodes); "
         "every Subtree→MutableSubtree conversion is a tabled site whose licence (fresh / ref_count==1 / decremented to zero / read-only) is re-verified; "
